@@ -135,7 +135,14 @@ class Ctx:
                 return 'non-ASCII byte in ' + repr(bytes(w))
             w = included(bytes_to_unicode(a), b)
             return None if w is None else show(w, True)
-        return 'no unchecked conversion from the IRI family to the URI family is sound'
+        from . import utf8
+        w = included(utf8.to_bytes(a), b)
+        if w is None:
+            return None
+        try:
+            return bytes(w).decode('utf-8')
+        except UnicodeDecodeError:
+            return repr(bytes(w))
 
     def concat_inclusion(self, pieces, T):
         """L(p1)·L(p2)… ⊆ L(T); pieces are validated type names (URI family) or byte literals"""
